@@ -177,6 +177,25 @@ def check_one(led, model, cyl, combined, reuse, force=False):
             Fexp = np.array(Fexp, dtype=object)
             for (i, j) in FORCED_ZERO + ([(6, 7), (7, 6)] if Fexp.shape[0] == 8 else []):
                 Fexp[i, j] = P.const(0)
+        if is_iso:
+            # the constitutive matrix that _rebuild derives from (E11, nu, h) -- what calc_fint and kG of the iso_ models integrate, while
+            # their k0 / k0L / kLL kernels take (E11, nu, h) themselves: it must be the isotropic plate matrix
+            E_, nu_, h_ = attrs['E11'], attrs['nu'], attrs['h']
+            c1 = E_ * h_ / (1 - nu_ * nu_)
+            d1 = E_ * h_ * h_ * h_ / (12 * (1 - nu_ * nu_))
+            Fiso = [[c1, nu_ * c1, 0, 0, 0, 0], [nu_ * c1, c1, 0, 0, 0, 0], [0, 0, c1 * (1 - nu_) * Fraction(1, 2), 0, 0, 0],
+                    [0, 0, 0, d1, nu_ * d1, 0], [0, 0, 0, nu_ * d1, d1, 0], [0, 0, 0, 0, 0, d1 * (1 - nu_) * Fraction(1, 2)]]
+            Fgot = a.get('F')
+            if not isinstance(Fgot, np.ndarray) or Fgot.shape != (6, 6):
+                probs.append('F of the isotropic shell is %r' % (type(Fgot).__name__,))
+            else:
+                from ..poly import rational_close
+                for i_ in range(6):
+                    for j_ in range(6):
+                        g_ = Fgot[i_, j_] if isinstance(Fgot[i_, j_], P) else P.const(Fgot[i_, j_])
+                        w_ = Fiso[i_][j_] if isinstance(Fiso[i_][j_], P) else P.const(Fiso[i_][j_])
+                        if not rational_close(g_, w_)[0]:
+                            probs.append('F[%d,%d] of the isotropic shell is %s, expected %s (E h/(1-nu^2) [[1,nu,0],[nu,1,0],[0,0,(1-nu)/2]], D = A h^2/12)' % (i_, j_, str(g_)[:60], str(w_)[:60]))
         arad = shims.sym_deg2rad(alphadeg) if not cyl else P.const(0)
         cosa = shims.sym_cos(arad) if not cyl else P.const(1)
         Fc_exp = a['Nxxtop'][0] * (2 * shims.PI * attrs['r2'] * cosa)
